@@ -196,9 +196,21 @@ Section Stream.
   Definition check_stream_size_limit (s : stream) : sres unit :=
     if stream_max_size <=? stream_size s then SErr StreamSizeLimitExceeded else SOk tt.
 
-  (* Stream::add_value: insert first, THEN check `cumulative_size >= STREAM_MAX_SIZE`
-     (on the error the value is already in the stream; the error is uncatchable, the run ends) *)
+  (* Stream::add_value, its first statement (fix: C01-stream-generation-resize):
+       match generation { Previous(g) | Current(g) if g >= STREAM_MAX_SIZE => return Err(StreamSizeLimitExceeded), _ => {} }
+     a stream holds fewer than STREAM_MAX_SIZE values and the generations of honest data are dense, so a
+     bigger index can only come from corrupted data; it is refused before the matrix is touched *)
+  Definition generation_in_range (g : generation) : bool :=
+    match g with
+    | GPrevious n => n <? stream_max_size
+    | GCurrent n => n <? stream_max_size
+    | GNew => true
+    end.
+
+  (* Stream::add_value: the generation guard, then insert, THEN check `cumulative_size >= STREAM_MAX_SIZE`
+     (on that error the value is already in the stream; the error is uncatchable, the run ends) *)
   Definition stream_add_value (s : stream) (v : V) (g : generation) : sres stream :=
+    if negb (generation_in_range g) then SErr StreamSizeLimitExceeded else
     dos s1 <- match g with
               | GPrevious pg => dos m <- add_value_to_generation (s_prev s) v pg;
                                 SOk {| s_prev := m; s_cur := s_cur s; s_new := s_new s |}
@@ -431,7 +443,7 @@ Section Stream.
       match stream_add_value s v g with
       | SOk s1 => stream_size s1 = stream_size s + 1 /\ stream_size s1 < stream_max_size /\
                   Permutation.Permutation (stream_iter s1) (v :: stream_iter s) /\ wf_stream s1
-      | SErr StreamSizeLimitExceeded => stream_max_size <= stream_size s + 1
+      | SErr StreamSizeLimitExceeded => stream_max_size <= stream_size s + 1 \/ generation_in_range g = false
       | SCrash _ => True
       end.
 
